@@ -112,6 +112,25 @@ def d1(cx: Cx, ob: Ob) -> None:
                         if not (len(c[2]) > pos and c[2][pos] == ("param", p)):
                             ob.violate(fn.qualname, where(fn, ev.line), f"{name} does not forward `{p}` to _file_helper", detail=f"forward:{p}")
         if not found:
+            sib = [(c, ev) for c, ev, _ in s.calls() if op(c[1]) == "attr" and c[1][1] == me and c[1][2] in TABLE and c[1][2] != name]
+            for c, ev in sib:
+                other = c[1][2]
+                amb_o, plain_o = TABLE[other]
+                kw = dict(c[3])
+                av = kw.get("ambiguous")
+                used = amb_o if is_const(av, True) else plain_o if (av is None or is_const(av, False)) else f"{amb_o} / {plain_o}"
+                want = TABLE[name][1]
+                found = True
+                ob.site(f"{where(fn, ev.line)} {fn.qualname}", f"delegates to {other}")
+                if used != want:
+                    ob.violate(
+                        fn.qualname,
+                        where(fn, ev.line),
+                        f"{name} delegates to {other}({'ambiguous=' + show(av) if av else ''}), which maps self.{used} over the column, not self.{want}: cells of the other kind are converted instead of standardised / reported",
+                        witness="a compressible URI in a CURIE column is compressed by pd_standardize_curie instead of giving NA",
+                        detail="scalar",
+                    )
+        if not found:
             ob.undecide(f"{name}: bulk application not recognised")
 
 
@@ -215,6 +234,15 @@ def d3(cx: Cx, ob: Ob) -> None:
     if not calls:
         ob.undecide("_file_helper never calls the conversion callable")
         return
+    for ci, cev, cctx in calls:
+        if cev.cov:
+            ob.violate(
+                fn.qualname,
+                where(fn, cev.line),
+                f"the conversion callable is called inside try/except {sorted(n for names in cev.cov for n in names)}: an error the scalar call would raise (strict mode) can be swallowed - the library's own exception classes may derive from the caught class - and the file is rewritten as if the cell had converted",
+                witness="file_expand(strict=True) with an unknown prefix no longer raises if ExpansionError is (made) a LookupError",
+                detail="conversion-in-try",
+            )
     if first_write is None:
         ob.undecide("_file_helper never opens a file for writing")
         return
